@@ -26,7 +26,7 @@ type Recipe struct {
 		From string `json:"from"`
 		To   string `json:"to"`
 	} `json:"rewrite,omitempty"` // mechanical substitutions applied to a copy of a repository file (overlay only)
-	dir        string
+	dir string
 }
 
 func loadRecipes(root string) []*Recipe {
